@@ -265,12 +265,26 @@ def _optimize_graph_with_failure_policy(
     *,
     strict_optimizer_failures: Optional[bool],
 ) -> None:
+    strict = _resolve_strict_optimizer_failures(strict_optimizer_failures)
+    # The passes rewrite the model in place; one that dies half-way leaves the
+    # graph partially rewired. Keep the un-optimised structure (tensors are shared,
+    # not copied) so that a non-fatal failure can fall back to it.
+    backup: Optional[ir.Model] = None
+    if not strict:
+        try:
+            backup = model.clone()
+        except Exception:
+            backup = None
     try:
         optimize_graph(model)
     except Exception as exc:
-        if _resolve_strict_optimizer_failures(strict_optimizer_failures):
+        if strict:
             raise
         _log_nonfatal_stage_failure("optimize_graph", exc)
+        if backup is not None:
+            model.graph = backup.graph
+            model.functions.clear()
+            model.functions.update(backup.functions)
 
 
 # Deprecated compatibility alias for TYPE_CHECKING-only legacy plugin imports.
